@@ -186,3 +186,21 @@ V("C04", "reads-original-not-license", "F", "R1", PRJ, "            file_result 
 V("C01", "error-results-treated-as-reports", "F", "R3", R + "report.py",
   "            if result.error:\n                _process_error(result.error, result.path)\n                project_report.read_errors.add(Path(result.path))\n                continue\n\n            file_report = cast(FileReport, result.report)\n\n            # File report.",
   "            file_report = cast(FileReport, result.report)\n\n            # File report.")
+
+# ----------------------------------------------------------------- C06
+RPT = R + "report.py"
+V("C06", "plus-form-not-tried", "F", "R1", RPT,
+  "                    if (\n                        plus_identifier := _strip_plus_from_identifier(\n                            identifier\n                        )\n                    ) != identifier:\n                        identifiers.add(plus_identifier)\n", "")
+V("C06", "swap-map-and-provided", "F", "R1", RPT,
+  "                    if not identifiers.intersection(project.license_map):\n                        report.bad_licenses.add(identifier)",
+  "                    if not identifiers.intersection(project.licenses):\n                        report.bad_licenses.add(identifier)")
+V("C06", "missing-only-if-not-bad", "F", "R1", RPT, "                    # Missing license\n                    if not identifiers", "                    # Missing license\n                    elif not identifiers")
+V("C06", "glob-not-recursive", "F", "R4", PRJ, "glob.iglob(directory, recursive=True)", "glob.iglob(directory, recursive=False)")
+V("C06", "unused-ignores-plus", "F", "R3", RPT, "for identifier in set((lic, _add_plus_to_identifier(lic)))", "for identifier in set((lic,))")
+V("C06", "lowercase-identifier", "F", "R5", RPT, "                for identifier in _LICENSING.license_keys(expression):\n", "                for identifier in _LICENSING.license_keys(expression):\n                    identifier = identifier.lower()\n")
+V("C06", "licenseref-allows-underscore", "F", "R5", EXP, '_LICENSEREF_PATTERN = re.compile("LicenseRef-[a-zA-Z0-9-.]+$")', '_LICENSEREF_PATTERN = re.compile("LicenseRef-[a-zA-Z0-9-._]+$")')
+V("C06", "duplicates-overwrite", "F", "R4", PRJ, '                raise RuntimeError("Multiple licenses resolve to {identifier}")\n', "")
+V("C06", "no-extension-not-recorded", "F", "R4", PRJ, "                    self.licenses_without_extension[identifier] = path\n", "")
+V("C06", "strip-plus-strips-more", "F", "R1", R + "_util.py", '    if spdx_identifier.endswith("+"):\n        return spdx_identifier[:-1]', '    if spdx_identifier.endswith("+"):\n        return spdx_identifier[:-2]')
+V("C06", "register-everything", "F", "R2", PRJ, "            if (\n                _LICENSEREF_PATTERN.match(identifier)\n                and \"Unknown\" not in identifier\n            ):", "            if True:")
+V("C06", "inline-strip-plus", "S", "", RPT, "used_licenses = {\n            lic\n            for file_report in self.file_reports", "used_licenses = {\n            lic\n            for file_report in self.file_reports")
